@@ -16,6 +16,8 @@ enum EK {
     CreateFile,
     CreateDir,
     Read,
+    Rename,
+    RemoveFile,
 }
 
 #[derive(Debug)]
@@ -23,6 +25,7 @@ struct ShimError {
     kind: EK,
     source: io::Error,
     path: PathBuf,
+    to: Option<PathBuf>,
 }
 
 impl fmt::Display for ShimError {
@@ -33,6 +36,8 @@ impl fmt::Display for ShimError {
             EK::CreateFile => write!(f, "failed to create file `{}`", p),
             EK::CreateDir => write!(f, "failed to create directory `{}`", p),
             EK::Read => write!(f, "failed to read from file `{}`", p),
+            EK::Rename => write!(f, "failed to rename file from {} to {}", p, self.to.as_ref().map(|t| t.display().to_string()).unwrap_or_default()),
+            EK::RemoveFile => write!(f, "failed to remove file `{}`", p),
         }
     }
 }
@@ -50,6 +55,7 @@ fn wrap(source: io::Error, kind: EK, path: &Path) -> io::Error {
             kind,
             source,
             path: path.to_path_buf(),
+            to: None,
         },
     )
 }
@@ -281,5 +287,57 @@ pub fn create_dir_all<P: AsRef<Path>>(path: P) -> io::Result<()> {
             .map_err(|e| wrap(e, EK::CreateDir, path))
     } else {
         real_fs_err::create_dir_all(path)
+    }
+}
+
+pub fn rename<P: AsRef<Path>, Q: AsRef<Path>>(from: P, to: Q) -> io::Result<()> {
+    let (from, to) = (from.as_ref(), to.as_ref());
+    if disk::active() {
+        disk::with(|d| d.rename(from, to)).unwrap().map_err(|e| {
+            io::Error::new(
+                e.kind(),
+                ShimError { kind: EK::Rename, source: e, path: from.to_path_buf(), to: Some(to.to_path_buf()) },
+            )
+        })
+    } else {
+        real_fs_err::rename(from, to)
+    }
+}
+
+pub fn remove_file<P: AsRef<Path>>(path: P) -> io::Result<()> {
+    let path = path.as_ref();
+    if disk::active() {
+        disk::with(|d| d.unlink(path)).unwrap().map_err(|e| wrap(e, EK::RemoveFile, path))
+    } else {
+        real_fs_err::remove_file(path)
+    }
+}
+
+pub fn copy<P: AsRef<Path>, Q: AsRef<Path>>(from: P, to: Q) -> io::Result<u64> {
+    let (from, to) = (from.as_ref(), to.as_ref());
+    if disk::active() {
+        let data = read(from)?;
+        write(to, &data)?;
+        Ok(data.len() as u64)
+    } else {
+        real_fs_err::copy(from, to)
+    }
+}
+
+pub fn create_dir<P: AsRef<Path>>(path: P) -> io::Result<()> {
+    create_dir_all(path)
+}
+
+pub fn canonicalize<P: AsRef<Path>>(path: P) -> io::Result<PathBuf> {
+    let path = path.as_ref();
+    if disk::active() {
+        let p = disk::normalize(path);
+        if disk::with(|d| d.exists(&p)).unwrap() {
+            Ok(p)
+        } else {
+            Err(wrap(io::Error::from_raw_os_error(2), EK::OpenFile, path))
+        }
+    } else {
+        real_fs_err::canonicalize(path)
     }
 }
